@@ -21,7 +21,8 @@ Directives (one per line, leading whitespace ignored):
       //@entry                following lines go right after the opening brace of the body
       //@exit                 ... right before the closing brace (unit-valued bodies)
       //@tail                 ... after the last top-level `;` of the body (before a tail expression)
-      //@closure K [RET_TYPE]  ... contract for the K-th closure (a last call argument): `|x| e)` -> `|x| -> (ret: T) <text> { e })`
+      //@blockend "tok" [#k]              before the closing brace of the innermost block that contains the token
+  //@closure K [RET_TYPE]  ... contract for the K-th closure (a last call argument): `|x| e)` -> `|x| -> (ret: T) <text> { e })`
       //@afterblock "TOKEN" [#k] ... right after the block statement (if/match/unsafe, with its else branches) starting at the token
       //@loopafter K          ... right after the closing `}` of the K-th loop
       //@afteropen "tok"    ... at the head of the block that follows the token (right after its `{`)
@@ -1219,6 +1220,34 @@ def weave_fn(src, container, name, nth, opts, subs, mode, sig_only=False):
                     continue
                 break
             b.add(j + 1, '\n' + body_text + '\n')
+        elif kind == 'blockend':
+            # at the END of the innermost block that contains the token: right before its closing brace (a hint that needs the locals of the
+            # block and the state after its last statement, whatever that statement is)
+            m = re.match(r'\s*"((?:[^"\\]|\\.)*)"\s*(?:#(\d+))?\s*$', arg)
+            if not m:
+                raise Undecided('bad anchor syntax: %s' % arg)
+            needle = m.group(1).replace('\\"', '"')
+            kth = int(m.group(2) or 1)
+            check_anchor('%s|%s' % (akey, needle), count_code(b, needle, bo))
+            pos = bo
+            for _ in range(kth):
+                pos = b.code_find(needle, pos + 1)
+                if pos < 0:
+                    raise Undecided('anchor lost: %r in %s::%s' % (needle, container, name))
+            d = 0
+            j = pos
+            while j < len(b.text):
+                if b.mask[j]:
+                    if b.text[j] == '{':
+                        d += 1
+                    elif b.text[j] == '}':
+                        if d == 0:
+                            break
+                        d -= 1
+                j += 1
+            if j >= len(b.text):
+                raise Undecided('anchor lost (no enclosing block): %r in %s::%s' % (needle, container, name))
+            b.add(j, '\n' + body_text + '\n')
         elif kind == 'afteropen':
             # at the head of the block that follows the token (`None => {`, `else {`): right after its opening brace
             m = re.match(r'\s*"((?:[^"\\]|\\.)*)"\s*(?:#(\d+))?\s*$', arg)
